@@ -1220,7 +1220,9 @@ def parseAll(node: ast.Assign, mod: model.Module) -> None:
     for idx, item in enumerate(node.value.elts):
         try:
             name: object = ast.literal_eval(item)
-        except ValueError:
+        except Exception:
+            # literal_eval() raises ValueError for a non-literal, but also TypeError (e.g. unhashable dict key), 
+            # MemoryError or RecursionError for literals it cannot evaluate.
             mod.report(
                 f'Cannot parse element {idx} of "__all__"',
                 section='all', lineno_offset=node.lineno)
@@ -1253,7 +1255,8 @@ def parseDocformat(node: ast.Assign, mod: model.Module) -> None:
 
     try:
         value = ast.literal_eval(node.value)
-    except ValueError:
+    except Exception:
+        # see parseAll() about the exceptions literal_eval() can raise.
         mod.report(
             'Cannot parse value assigned to "__docformat__": not a string',
             section='docformat', lineno_offset=node.lineno)
